@@ -155,10 +155,12 @@ var FormatListFunc = function.New(&function.Spec{
 
 		ret := make([]cty.Value, 0, iterLen)
 		fmtArgs := make([]cty.Value, len(iterators))
-	Results:
 		for iterIdx := 0; iterIdx < iterLen; iterIdx++ {
 
-			// Construct our arguments for a single format call
+			// Construct our arguments for a single format call. Every
+			// iterator is advanced on every iteration, so that they all stay
+			// in step even when this iteration turns out to be unknown.
+			unknownArg := false
 			for i := range fmtArgs {
 				switch {
 				case iterators[i] != nil:
@@ -170,16 +172,20 @@ var FormatListFunc = function.New(&function.Spec{
 					fmtArgs[i] = singleVals[i]
 				}
 
-				// If any of the arguments to this call would be unknown then
-				// this particular result is unknown, but we'll keep going
-				// to see if any other iterations can produce known values.
+				// We require all nested values to be known because the only
+				// thing we can do for a collection/structural type is print
+				// it as JSON and that requires it to be wholly known.
 				if !fmtArgs[i].IsWhollyKnown() {
-					// We require all nested values to be known because the only
-					// thing we can do for a collection/structural type is print
-					// it as JSON and that requires it to be wholly known.
-					ret = append(ret, cty.UnknownVal(cty.String).RefineNotNull())
-					continue Results
+					unknownArg = true
 				}
+			}
+
+			// If any of the arguments to this call would be unknown then
+			// this particular result is unknown, but we'll keep going
+			// to see if any other iterations can produce known values.
+			if unknownArg {
+				ret = append(ret, cty.UnknownVal(cty.String).RefineNotNull())
+				continue
 			}
 
 			str, err := formatFSM(fmtStr, fmtArgs)
